@@ -1322,6 +1322,7 @@ def _percent_format(it, fmt, arg):
     if i < len(args): it.raise_('TypeError', 'not all arguments converted during string formatting')
     return it.concat(out)
 def _s_startswith(it, s, p):
+    if isinstance(p, tuple): return it.disj([_s_startswith(it, s, q) for q in p])        # a tuple of prefixes: any of them
     ls, lp = _lit(it, s), _lit(it, p)
     if lp is None: raise OutsideSubset('startswith symbolic prefix')
     if ls is not None: return ls.startswith(lp)
@@ -1338,6 +1339,7 @@ def _s_startswith(it, s, p):
         return SBool(z3.Or(a, z3.And(x.z == z3.StringVal(''), zb(rest))))
     return SBool(z3.PrefixOf(z3.StringVal(lp), sn.z()))
 def _s_endswith(it, s, p):
+    if isinstance(p, tuple): return it.disj([_s_endswith(it, s, q) for q in p])
     ls, lp = _lit(it, s), _lit(it, p)
     if lp is None: raise OutsideSubset('endswith symbolic suffix')
     if ls is not None: return ls.endswith(lp)
